@@ -77,6 +77,7 @@ class FuncInfo:
 
 def analyse():
     writes, langs, calls = set(), set(), set()
+    switches = set()
     mods = {}
     for fn, path in module_files():
         tree = ast.parse(open(path, encoding="utf-8").read(), filename=path)
@@ -250,6 +251,9 @@ def analyse():
                     cname = f.id if isinstance(f, ast.Name) else (f.attr if isinstance(f, ast.Attribute) else None)
                     if cname:
                         calls.add((qual, cname))
+                    # calls that can switch the current language: load*/realize(<lang>)
+                    if (cname in ("load", "loadEn", "loadFr") and isinstance(f, ast.Name)) or (cname == "realize" and (n.args or n.keywords)):
+                        switches.add((fn, qual, cname))
                     if cname in LANG_READERS:
                         langs.add((fn, qual, cname, "current"))
                     if cname in ACCESSORS or (cname in FACTORIES and isinstance(f, ast.Name)):
@@ -311,11 +315,11 @@ def analyse():
 
         nested = []
         walk_defs(tree.body, "")
-    return sorted(writes), sorted(langs), sorted(calls)
+    return sorted(writes), sorted(langs), sorted(calls), sorted(switches)
 
 
 def generate():
-    writes, langs, calls = analyse()
+    writes, langs, calls, switches = analyse()
     if not any(w[1] == "loadFr" for w in writes):
         raise TranslateError("write inventory: the write of the current language in Lexicon.loadFr was not found")
     out = ["/-! GENERATED by harness/translate/sites.py from src/pyrealb/*.py — do not edit. -/",
@@ -326,6 +330,10 @@ def generate():
            "  deriving DecidableEq, Repr", ""]
     out.append("def globalWriteSites : List WriteSite := [")
     out.append(",\n".join("  ⟨%s, %s, %s, %s⟩" % tuple(lean_str(x) for x in w) for w in writes))
+    out.append("]\n")
+    out.append("/-- calls that can change the current language: load, loadEn, loadFr and realize(<lang>) -/")
+    out.append("def langSwitchCalls : List (String × String × String) := [")
+    out.append(",\n".join("  (%s, %s, %s)" % tuple(lean_str(x) for x in w) for w in switches))
     out.append("]\n")
     chunks = [langs[i:i + 60] for i in range(0, len(langs), 60)] or [[]]
     for k, ch in enumerate(chunks):
@@ -344,7 +352,9 @@ def generate():
 
 
 if __name__ == "__main__":
-    w, l, c = analyse()
+    w, l, c, sw = analyse()
+    for x in sw:
+        print("S", x)
     for x in w:
         print("W", x)
     from collections import Counter
